@@ -132,36 +132,39 @@ def implicit_norton(algo, eps=1e-14, theta=0.5, A=8e-67, E=8.2, suffix=""):
     # Broyden / PowellDogLeg_Broyden: the operator built from the quasi-Newton approximation of the jacobian is
     # approximate by construction (observed 1-10% off): not a "consistent tangent" in the sense of C42
     return spec(name, t, kind="implicit_norton", algo=algo, tangent=algo not in ("Broyden", "PowellDogLeg_Broyden"),
-                analytic=an, closed_tangent=(algo == "Broyden2"))
+                analytic=an, closed_tangent=(algo == "Broyden2"),
+                literals={"A": A, "E": E, "theta": theta, "epsilon": eps} if suffix else None)
 
 
 def norton_rk(algo, eps=1e-10, suffix=""):
     name = "VfNorton_" + algo + suffix
     t = sub((TPL / "VfNortonRK.mfront.in").read_text(), NAME=name, ALGO=algo, EPSILON=fl(eps))
-    return spec(name, t, kind="norton_rk", algo=algo, eps=eps)
+    return spec(name, t, kind="norton_rk", algo=algo, eps=eps, literals={"epsilon": eps} if suffix else None)
 
 
 def norton_creep(eps=1e-12, theta=0.5, suffix=""):
     t = sub((TPL / "VfNorton.mfront").read_text(), EPSILON=fl(eps), THETA=fl(theta)).replace("VfNorton", "VfNorton" + suffix)
-    return spec("VfNorton" + suffix, t, kind="norton_creep", tangent=True)
+    return spec("VfNorton" + suffix, t, kind="norton_creep", tangent=True, literals={"theta": theta, "epsilon": eps} if suffix else None)
 
 
 def plasticity(eps=1e-12, theta=1.0, useqt="true", suffix=""):
     t = sub((TPL / "VfPlasticity.mfront").read_text(), EPSILON=fl(eps), THETA=fl(theta), USEQT=useqt) \
         .replace("VfPlasticity", "VfPlasticity" + suffix)
-    return spec("VfPlasticity" + suffix, t, kind="plasticity", tangent=True)
+    return spec("VfPlasticity" + suffix, t, kind="plasticity", tangent=True, literals={"theta": theta, "epsilon": eps} if suffix else None)
 
 
 def brick_plasticity(eps=1e-14, theta=1.0, s0=33e6, H=2e9, suffix=""):
     t = sub((TPL / "VfBrickPlasticity.mfront").read_text(), EPSILON=fl(eps), THETA=fl(theta), S0=fl(s0), H=fl(H)) \
         .replace("VfBrickPlasticity", "VfBrickPlasticity" + suffix)
-    return spec("VfBrickPlasticity" + suffix, t, kind="brick_plasticity", tangent=True)
+    return spec("VfBrickPlasticity" + suffix, t, kind="brick_plasticity", tangent=True,
+                literals={"theta": theta, "epsilon": eps, "s0": s0, "Hp": H} if suffix else None)
 
 
 def brick_norton(eps=1e-14, theta=0.5, K=100e6, E=3.2, suffix=""):
     t = sub((TPL / "VfBrickNorton.mfront").read_text(), EPSILON=fl(eps), THETA=fl(theta), K=fl(K), E=fl(E)) \
         .replace("VfBrickNorton", "VfBrickNorton" + suffix)
-    return spec("VfBrickNorton" + suffix, t, kind="brick_norton", tangent=True)
+    return spec("VfBrickNorton" + suffix, t, kind="brick_norton", tangent=True,
+                literals={"theta": theta, "epsilon": eps, "Kn": K, "En": E} if suffix else None)
 
 
 def c41_specs(ctx=None, thorough=False, seed=0):
@@ -177,15 +180,15 @@ def c41_specs(ctx=None, thorough=False, seed=0):
         for a in IMPLICIT_ALGOS:
             E = round(g.uniform(1.5, 9.0), 3)
             de0 = 10 ** g.uniform(-2, 0)
-            v = implicit_norton(a, eps=10 ** g.uniform(-15, -11), theta=round(g.uniform(0.3, 1.0), 3),
+            v = implicit_norton(a, eps=10 ** g.uniform(-14, -10), theta=round(g.uniform(0.3, 1.0), 3),
                                 A=de0 / (100e6 ** E), E=E, suffix="_v")
             v["slot"] += ""
             s.append(v)
         s.append(norton_creep(eps=10 ** g.uniform(-13, -9), theta=round(g.uniform(0.3, 1.0), 3), suffix="_v"))
         s.append(plasticity(eps=10 ** g.uniform(-13, -9), theta=round(g.uniform(0.5, 1.0), 3), useqt="false", suffix="_v"))
-        s.append(brick_plasticity(eps=10 ** g.uniform(-15, -12), theta=round(g.uniform(0.5, 1.0), 3),
+        s.append(brick_plasticity(eps=10 ** g.uniform(-14, -11), theta=round(g.uniform(0.5, 1.0), 3),
                                   s0=g.uniform(20e6, 400e6), H=g.uniform(0, 20e9), suffix="_v"))
-        s.append(brick_norton(eps=10 ** g.uniform(-15, -12), theta=round(g.uniform(0.3, 1.0), 3),
+        s.append(brick_norton(eps=10 ** g.uniform(-14, -11), theta=round(g.uniform(0.3, 1.0), 3),
                               K=g.uniform(50e6, 300e6), E=round(g.uniform(1.5, 8.0), 3), suffix="_v"))
         s.append(elasticity(useqt="false", suffix="_v"))
         for a in RK_ALGOS:
@@ -195,7 +198,10 @@ def c41_specs(ctx=None, thorough=False, seed=0):
 
 def c42_specs(thorough=False, seed=0):
     """behaviours of C41 that provide a consistent tangent operator"""
-    return [s for s in c41_specs(thorough=thorough, seed=seed) if s.get("tangent") or s["kind"] == "elasticity"]
+    base = [s for s in c41_specs(thorough=False) if s.get("tangent") or s["kind"] == "elasticity"]
+    if thorough:
+        base += [repo_implicit_norton(k) for k in REPO_IMPLICIT if k != "ImplicitNorton_Broyden"]
+    return base
 
 
 def ortho_elastic(iso):
